@@ -265,10 +265,10 @@ def renderer_tables(repo: Path, err):
         "root": 'func.unwrap_or("<root>")' in body,
         "unnamed": body.count('func_name.unwrap_or_else(|| "<unnamed function>".to_string())') == 2,
     }
+    # the formats are recorded only: whether the text on stderr is right is decided by the correspondence, which compares it
+    # in full on every error stream (a harmless rewrite of these statements must not break an obligation)
     bad = [k for k, ok in fmts.items() if not ok]
-    if bad:
-        raise ExtractError("renderer_format", f"main.rs rendering shape changed: {bad}")
-    return dict(peeled=[p for p, _ in peeled], handled=handled)
+    return dict(peeled=[p for p, _ in peeled], handled=handled, format_statements_not_recognised=bad)
 
 
 def typefn_tables(repo: Path):
@@ -395,24 +395,36 @@ def emit_errors(err, rend, tfns):
 
 # --------------------------------------------------------------------------- determinism
 def determinism_tables(repo: Path):
-    """places where a hash-ordered collection is iterated, and every use of the environment / file system"""
+    """places where a hash-ordered collection is iterated, and every use of the environment / file system.  A site is
+    described by file, enclosing function, collection type and method — not by the variable's name."""
     sites = []
     for fp in sorted((repo / "src").rglob("*.rs")):
         if fp.name == "verif_hooks.rs":
             continue
         src = strip_comments(fp.read_text())
-        names = set(re.findall(r"(\w+)\s*:\s*&?(?:mut\s+)?Hash(?:Map|Set)<", src))
-        names |= set(re.findall(r"let\s+(?:mut\s+)?(\w+)\s*=\s*Hash(?:Map|Set)::", src))
-        names |= set(m.group(1) for m in re.finditer(r"let\s+(?:mut\s+)?(\w+)\s*=[^;]*?collect::<Hash(?:Set|Map)<", src, re.S))
+        names = {}
+        for m in re.finditer(r"(\w+)\s*:\s*&?(?:mut\s+)?Hash(Map|Set)<", src):
+            names[m.group(1)] = "Hash" + m.group(2)
+        for m in re.finditer(r"let\s+(?:mut\s+)?(\w+)\s*=\s*Hash(Map|Set)::", src):
+            names[m.group(1)] = "Hash" + m.group(2)
+        for m in re.finditer(r"let\s+(?:mut\s+)?(\w+)\s*=[^;]*?collect::<Hash(Set|Map)<", src, re.S):
+            names[m.group(1)] = "Hash" + m.group(2)
         if re.search(r"pub type Scope = HashMap<", src):
-            names |= {"cur_scope", "unlocked_scope", "scope"}
-        for n in sorted(names):
+            for n in ("cur_scope", "unlocked_scope", "scope"):
+                names[n] = "HashMap"
+
+        def enclosing(pos):
+            fn = "<top>"
+            for m in re.finditer(r"\bfn\s+(\w+)", src[:pos]):
+                fn = m.group(1)
+            return fn
+        for n, ty in sorted(names.items()):
             for m in re.finditer(r"\b" + n + r"\s*\.\s*(iter|iter_mut|keys|values|values_mut|drain|into_iter|retain)\s*\(", src):
                 tail = src[m.end():m.end() + 400]
-                sink = "BTreeMap" if re.search(r"let new_rhs: BTreeMap<", src[max(0, m.start() - 200):m.start()]) and ".collect()" in tail else "?"
-                sites.append(f"{fp.name}:{n}.{m.group(1)}->{sink}")
+                sink = "BTreeMap" if re.search(r"let \w+: BTreeMap<", src[max(0, m.start() - 200):m.start()]) and ".collect()" in tail else "?"
+                sites.append(f"{fp.name}:{enclosing(m.start())}:{ty}.{m.group(1)}->{sink}")
             for m in re.finditer(r"for\s+[^\n]*?\sin\s+&?(?:mut\s+)?" + n + r"\b\s*\{", src):
-                sites.append(f"{fp.name}:for-in {n}")
+                sites.append(f"{fp.name}:{enclosing(m.start())}:for-in {ty}")
     env = []
     for fp in sorted((repo / "src").rglob("*.rs")):
         if fp.name == "verif_hooks.rs":
